@@ -37,6 +37,7 @@ int  vrt_done(int tid);
 void vrt_freeze(int tid, int frozen);	/* frozen threads are never scheduled (C17 solo runs) */
 
 /* ---- events / scheduling ---- */
+void vrt_sleep(unsigned long n);		/* logical sleep: not scheduled for the next n global steps */
 void vrt_point(void);			/* scheduling point (may also deliver a synthetic signal) */
 void vrt_log(const char *fmt, ...) __attribute__((format(printf, 1, 2)));	/* "T<tid> ...\n", no scheduling */
 void vrt_raw(const char *fmt, ...) __attribute__((format(printf, 1, 2)));	/* line without thread prefix */
